@@ -11,8 +11,8 @@ def run(tier, seed, replay=None):
     # shards must be exactly 16: the per-level sweep is spread over seed % 16
     differential(check, 'C14', 'transforms', 'c14', tier, seed * 16, replay, 40, 3000, extract_between_bars, shards=16)
     check.coverage['rule'] = ('every run: each of gzip, zlib, zstd, lz4, brotli generic/text/font at EVERY level (default, three presets, explicit 0..9 / 1..22 / 0..11) on an empty, a tiny, '
-                              'a repetitive and a text-like payload (spread over 16 shards); plus seeded cases: random algorithm/level x payload class {empty, tiny, incompressible, repetitive, '
-                              'text, ~1 MiB (every 50th)}, codec round-trips (string, bytes, bincode struct / Vec<String> / Option<(u32, Vec<u8>)>), wire compositions of 0-5 items; '
+                              'a repetitive, a text-like and a large incompressible payload (32 KiB-1 .. 200 KiB, around the libraries\' block sizes) (spread over 16 shards); plus seeded cases: random algorithm/level x payload class {empty, tiny, incompressible, repetitive, '
+                              'text, large incompressible (every 10th), ~1 MiB repetitive / ~1 MiB incompressible / noise-run-noise (every 50th each)}, codec round-trips (string, bytes, bincode struct / Vec<String> / Option<(u32, Vec<u8>)>), wire compositions of 0-5 items; '
                               'non-trivial = distinct case line')
     check.coverage['trusted_base'] = TRUSTED_BASE_COMMON + [
         'NOT verified (third-party): flate2/miniz_oxide, zstd (C), lz4_flex, brotli: decompress(compress b) = b is their contract, checked by the run for every algorithm x level',
